@@ -805,8 +805,14 @@ class Engine(object):
         post = Frame(parent=frame, vars=dict(self.params0, result=result))
         self.use_lemmas('post', post)
         for i, e in enumerate(c.ensures):
-            self.oblige('%s.post.%d' % (c.funcname, i), self.coerce(self.ev_spec(e, post), Bool),
-                        kind='post')
+            try:
+                goal = self.coerce(self.ev_spec(e, post), Bool)
+            except PyRaise as r:
+                # the clause cannot even be evaluated on the state the function left behind (a missing attribute, key or index):
+                # it does not hold.  (On the unchanged tree every clause evaluates; this only arises when the code changed.)
+                self.trusted_used['post-condition not evaluable: %s' % (getattr(r.exc.cls, '__name__', r.exc.cls),)] = 1
+                goal = z3.BoolVal(False)
+            self.oblige('%s.post.%d' % (c.funcname, i), goal, kind='post')
         if c.result_cases:
             matched = False
             for i, (cond, expr) in enumerate(c.result_cases):
